@@ -67,32 +67,37 @@ pub fn walk_order_case(tree: &crate::tree::Tree, hunk: usize, srcs: &SrcCache, s
             }
         }
     }
-    // Index written by a backup
+    // Index written by a backup: once with everything in large blocks, once with a block size that
+    // every small file fills exactly (the combiner then flushes by itself in the middle of a hunk
+    // group, and directories and symlinks, which bypass it, fill the hunk).
     let arch = scratch.fresh("a");
-    run::do_create_archive(&arch);
-    let out = run::do_backup(&arch, &dir, &BOpts::new(hunk, 1 << 20, 1 << 20), run::NOHOOK, Flavor::Current);
-    if out.ok_stats().is_none() {
-        v.push(Violation::new(
-            "C11:backup-failed",
-            format!("tree {brief} hunk={hunk}: {}", out.describe()),
-        ));
-    } else {
-        let snap = Snap::load(&arch);
-        let idx: Vec<String> = snap.band_entries(0).into_iter().map(|e| e.apath).collect();
-        if idx != expected {
+    for (hk, block) in [(hunk, 1usize << 20), (if hunk == 1 { 3 } else { 2 }, 3)] {
+        let _ = std::fs::remove_dir_all(&arch);
+        run::do_create_archive(&arch);
+        let out = run::do_backup(&arch, &dir, &BOpts::new(hk, block, 1 << 20), run::NOHOOK, Flavor::Current);
+        if out.ok_stats().is_none() {
             v.push(Violation::new(
-                "C11:index-order",
-                format!("tree {brief} hunk={hunk}: index holds {idx:?}, documented order is {expected:?}"),
+                "C11:backup-failed",
+                format!("tree {brief} hunk={hk} block={block}: {}", out.describe()),
             ));
-        }
-        // Listing
-        let (lo, listed) = run::do_list(&arch, run::Sel::Band(0), "/", &[], run::NOHOOK);
-        let l: Vec<String> = listed.into_iter().map(|e| e.apath).collect();
-        if !lo.is_ok() || l != expected {
-            v.push(Violation::new(
-                "C11:listing-order",
-                format!("tree {brief} hunk={hunk}: listing gives {l:?} ({})", lo.describe()),
-            ));
+        } else {
+            let snap = Snap::load(&arch);
+            let idx: Vec<String> = snap.band_entries(0).into_iter().map(|e| e.apath).collect();
+            if idx != expected {
+                v.push(Violation::new(
+                    "C11:index-order",
+                    format!("tree {brief} hunk={hk} block={block}: index holds {idx:?}, documented order is {expected:?}"),
+                ));
+            }
+            // Listing
+            let (lo, listed) = run::do_list(&arch, run::Sel::Band(0), "/", &[], run::NOHOOK);
+            let l: Vec<String> = listed.into_iter().map(|e| e.apath).collect();
+            if !lo.is_ok() || l != expected {
+                v.push(Violation::new(
+                    "C11:listing-order",
+                    format!("tree {brief} hunk={hk} block={block}: listing gives {l:?} ({})", lo.describe()),
+                ));
+            }
         }
     }
     let _ = std::fs::remove_dir_all(&arch);
